@@ -122,6 +122,22 @@ func oneFlow(c *Ctx, d int, vec []int, pol int) {
 		argv = append(argv, fmt.Sprintf("c%d", i))
 	}
 	o := runIsolated(func() error { return app.Run(argv) })
+	if d <= 1 && cap(log) >= 0 {
+		// the same instance once more: the flow is rebuilt per Run and must behave identically
+		// (sub-commands of this chain declare nothing, so they can be initialised again)
+		first := strings.Join(log, " ")
+		log = nil
+		o2 := runIsolated(func() error { return app.Run(argv) })
+		c.Count("second_runs_on_same_instance", 1)
+		if strings.Join(log, " ") != first || o2.Returned != o.Returned || o2.Panicked != o.Panicked || fmt.Sprint(o2.Exits) != fmt.Sprint(o.Exits) {
+			if c.On("C05") {
+				c.Violation("C05", fmt.Sprintf("flow depth=%d vec=%s policy=%d (second Run on the same instance)", d, describeVec(names, vec), pol),
+					Case{"depth": d, "vec": append([]int{}, vec...), "policy": pol}, fmt.Sprintf("as the first run: calls=[%s] returned=%v panicked=%v exits=%v", first, o.Returned, o.Panicked, o.Exits),
+					fmt.Sprintf("calls=[%s] returned=%v panicked=%v exits=%v", strings.Join(log, " "), o2.Returned, o2.Panicked, o2.Exits))
+			}
+		}
+		o = o2
+	}
 
 	exp := ref.Flow(d, vec)
 	c.Count("evaluations", 1)
